@@ -499,6 +499,176 @@ fn explicit_parent_part(res: &mut PartResult) {
     res.sample(json!({"current": "X{a}", "explicit_parent": "P{b}", "child": "C{}", "expected_labels_inside_child": "b=Pb (from P), nothing from X"}));
 }
 
+/// A recorded value whose `Debug` impl runs an environment action: the only points inside `Span::record` /
+/// span creation where other code can run are the formatting callbacks of the values.
+struct Probe<'a>(&'a dyn Fn());
+impl std::fmt::Debug for Probe<'_> {
+    fn fmt(&self, f: &mut std::fmt::Formatter<'_>) -> std::fmt::Result {
+        (self.0)();
+        f.write_str("PROBE")
+    }
+}
+
+/// labels one emission of metric `m` (own label own=o) gets right now on this thread
+fn observe(rec: &dyn Recorder, log: &Log) -> Result<Vec<(String, String)>, String> {
+    log.lock().unwrap().clear();
+    let key = Key::from_parts("m", vec![Label::new("own", "o")]);
+    drop(rec.register_counter(&key, &META));
+    let got = log.lock().unwrap().clone();
+    if got.len() != 1 {
+        return Err(format!("{} registrations reached the inner recorder", got.len()));
+    }
+    let mut g = got[0].clone();
+    g.sort();
+    Ok(g)
+}
+fn expect(filter: &Filter, visible: &BTreeMap<String, String>) -> Vec<(String, String)> {
+    let mut want: BTreeMap<String, String> = visible.iter().filter(|(k, _)| filter.admits("m", k)).map(|(k, v)| (k.clone(), v.clone())).collect();
+    want.insert("own".into(), "o".into());
+    want.into_iter().collect()
+}
+
+/// Every environment action at the value-formatting callback of `Span::record`, for every parent/span field
+/// configuration, recorded field and filter: an emission made (on the same or on another thread) while a `record()`
+/// on the span is in progress sees the span's labels from before or from after that record — never anything else —
+/// and a child created in that window inherits one of those two; after `record()` returns, the new value is visible.
+fn record_window_part(res: &mut PartResult) {
+    res.engine = "E3 every environment action at the value-formatting callback of Span::record x span configurations x filters".into();
+    let mut states = vseq::States::new();
+    let mut checks = 0u64;
+    let actions = ["emit in the span, same thread", "create child + emit in it, same thread", "emit in the span, other thread", "create child + emit in it, other thread", "record the other field on the span, other thread"];
+    for filter in [Filter::All, Filter::Allow(vec!["a"]), Filter::Allow(vec!["a", "b", "c"]), Filter::Custom] {
+        for pc in 0..4u8 {
+            for sc in 0..4u8 {
+                for field in ["a", "b"] {
+                    for (ai, aname) in actions.iter().enumerate() {
+                        res.executions += 1;
+                        let log: Log = Default::default();
+                        let rec = filter.build(log.clone());
+                        let mut fails: Vec<(String, String)> = Vec::new();
+                        // a fresh subscriber per case: a panic inside one case must not leave poisoned state behind
+                        let dispatch = Dispatch::new(tracing_subscriber::registry().with(MetricsLayer::new()));
+                        let outcome = vseq::catch(|| tracing::dispatcher::with_default(&dispatch, || {
+                            let p = mk_span_with_parent(pc, "P", Some(None));
+                            let s = mk_span_with_parent(sc, "S", Some(Some(&p)));
+                            let mut before = labels_of(sc, "S");
+                            for (k, v) in labels_of(pc, "P") {
+                                before.entry(k).or_insert(v);
+                            }
+                            let mut after = before.clone();
+                            after.insert(field.to_string(), "PROBE".to_string());
+                            let other_field = if field == "a" { "b" } else { "a" };
+                            // what the action saw: (labels seen, child span kept for later)
+                            let seen: Mutex<Vec<Result<Vec<(String, String)>, String>>> = Mutex::new(vec![]);
+                            let child: Mutex<Option<Span>> = Mutex::new(None);
+                            let calls = std::sync::atomic::AtomicUsize::new(0);
+                            let act = || {
+                                if calls.fetch_add(1, std::sync::atomic::Ordering::SeqCst) != 0 {
+                                    return;
+                                }
+                                match ai {
+                                    0 => seen.lock().unwrap().push(s.in_scope(|| observe(rec.as_ref(), &log))),
+                                    1 => {
+                                        let c = tracing::info_span!(parent: &s, "c", c = "Cc");
+                                        seen.lock().unwrap().push(c.in_scope(|| observe(rec.as_ref(), &log)));
+                                        *child.lock().unwrap() = Some(c);
+                                    }
+                                    _ => {
+                                        let (d2, f2, s2) = (dispatch.clone(), filter.clone(), s.clone());
+                                        let (r, c) = std::thread::spawn(move || {
+                                            tracing::dispatcher::with_default(&d2, || {
+                                                let log2: Log = Default::default();
+                                                let rec2 = f2.build(log2.clone());
+                                                match ai {
+                                                    2 => (Some(s2.in_scope(|| observe(rec2.as_ref(), &log2))), None),
+                                                    3 => {
+                                                        let c = tracing::info_span!(parent: &s2, "c", c = "Cc");
+                                                        (Some(c.in_scope(|| observe(rec2.as_ref(), &log2))), Some(c))
+                                                    }
+                                                    _ => {
+                                                        s2.record(other_field, "OTHER");
+                                                        (None, None)
+                                                    }
+                                                }
+                                            })
+                                        })
+                                        .join()
+                                        .unwrap_or_else(|e| panic!("helper thread panicked: {}", e.downcast_ref::<String>().cloned().or_else(|| e.downcast_ref::<&str>().map(|s| s.to_string())).unwrap_or_default()));
+                                        if let Some(r) = r {
+                                            seen.lock().unwrap().push(r);
+                                        }
+                                        *child.lock().unwrap() = c;
+                                    }
+                                }
+                            };
+                            s.record(field, tracing::field::debug(Probe(&act)));
+                            checks += 1;
+                            let with_c = |m: &BTreeMap<String, String>| {
+                                let mut m = m.clone();
+                                m.insert("c".into(), "Cc".into());
+                                m
+                            };
+                            let is_child = ai == 1 || ai == 3;
+                            let (wb, wa) = if is_child { (expect(&filter, &with_c(&before)), expect(&filter, &with_c(&after))) } else { (expect(&filter, &before), expect(&filter, &after)) };
+                            if ai < 4 {
+                                match seen.lock().unwrap().get(0) {
+                                    None => fails.push(("record-window-callback-not-run".into(), "the recorded value was never formatted".into())),
+                                    Some(Err(e)) => fails.push(("metric-not-forwarded-exactly-once".into(), e.clone())),
+                                    Some(Ok(g)) => {
+                                        states.add(g);
+                                        if *g != wb && *g != wa {
+                                            fails.push(("labels-torn-while-record-in-progress".into(), format!("emission made while record({}) was in progress got labels {:?}; allowed: {:?} (before) or {:?} (after)", field, g, wb, wa)));
+                                        }
+                                    }
+                                }
+                            }
+                            // after record() returned: the span shows the new value (and the other thread's record, if any)
+                            let mut fin = after.clone();
+                            if ai == 4 {
+                                fin.insert(other_field.to_string(), "OTHER".to_string());
+                            }
+                            match s.in_scope(|| observe(rec.as_ref(), &log)) {
+                                Ok(g) => {
+                                    states.add(&g);
+                                    if g != expect(&filter, &fin) {
+                                        fails.push(("record-did-not-replace-span-value".into(), format!("after record({}) returned the span shows {:?}, expected {:?}", field, g, expect(&filter, &fin))));
+                                    }
+                                }
+                                Err(e) => fails.push(("metric-not-forwarded-exactly-once".into(), e)),
+                            }
+                            // a child created in the window keeps the labels it had then
+                            let taken = child.lock().unwrap().take();
+                            if let Some(c) = taken {
+                                let first = seen.lock().unwrap().get(0).cloned();
+                                match (c.in_scope(|| observe(rec.as_ref(), &log)), first) {
+                                    (Ok(g), Some(Ok(f))) => {
+                                        if g != f {
+                                            fails.push(("child-labels-changed-after-creation".into(), format!("child created while record() was in progress showed {:?} then and {:?} afterwards", f, g)));
+                                        }
+                                    }
+                                    (Err(e), _) => fails.push(("metric-not-forwarded-exactly-once".into(), e)),
+                                    _ => {}
+                                }
+                            }
+                        }));
+                        if let Err(e) = outcome {
+                            fails.push(("panic-while-record-in-progress".into(), format!("panicked: {}", e)));
+                        }
+                        for (sig, msg) in fails {
+                            res.violation(&sig, format!("filter {:?}, parent create={}, span create={}, record({}), action `{}`: {}", filter, pc, sc, field, aname, msg), json!({"window": [pc, sc, field, ai], "filter": format!("{:?}", filter)}));
+                        }
+                    }
+                }
+            }
+        }
+    }
+    res.transitions = checks;
+    res.states = states.len().max(1);
+    res.distinct_outcomes = states.len().max(1);
+    res.bound = json!({"actions": actions, "callbacks_per_record": 1, "parent_variants": 4, "span_variants": 4, "fields": 2, "filters": 4});
+    res.sample(json!({"span": "S{a} child of P{b}", "record": "b = <value whose Debug emits a metric in S from another thread>", "allowed": "{a=Sa,b=Pb} or {a=Sa,b=PROBE}"}));
+}
+
 #[derive(Debug)]
 struct Dbg(u8);
 
@@ -553,7 +723,7 @@ fn filters(all: bool) -> Vec<Filter> {
 
 fn parts(ctx: &Ctx) -> Vec<PartSpec> {
     let b = if ctx.quick() { 50.0 } else { 2400.0 };
-    let mut v = vec![PartSpec::new("value-types", json!({"p": "values"})), PartSpec::new("explicit-parents", json!({"p": "explicit"}))];
+    let mut v = vec![PartSpec::new("value-types", json!({"p": "values"})), PartSpec::new("explicit-parents", json!({"p": "explicit"})), PartSpec::new("record-window", json!({"p": "window"}))];
     let fl = filters(true);
     let depth = if ctx.quick() { 3 } else { 4 };
     for fi in 0..fl.len() {
@@ -569,6 +739,8 @@ fn run(ctx: &Ctx, spec: &PartSpec) -> PartResult {
         value_types_part(&mut res);
     } else if spec.arg["p"].as_str() == Some("explicit") {
         explicit_parent_part(&mut res);
+    } else if spec.arg["p"].as_str() == Some("window") {
+        record_window_part(&mut res);
     } else {
         let fl = filters(true);
         let f = fl[spec.arg["filter"].as_u64().unwrap_or(0) as usize].clone();
@@ -581,7 +753,7 @@ fn main() {
     driver::main(CheckDef {
         prop: "C17",
         level: "model_checking",
-        rule: "all span trees (chains of nested spans) up to the stated depth where every level independently takes one of 20 variants (fields a,b given at creation or left Empty; a later record() of a or b, either right after creation or after the child span was created), x filters {IncludeAll, custom per-metric closure, Allowlists over {a,b,c}} x metric own-label sets ⊆ {a,c} x 2 metric names x 3 kinds, emitted inside every level, after every subtree, after leaving every level and outside any span, on the real MetricsLayer + TracingContextLayer over a real tracing-subscriber registry, optionally with a second thread holding a conflicting span on the same subscriber; the key reaching the inner recorder is compared with a reference precedence map (metric > inner span > outer span-at-child-creation, record() replaces); plus field value types (str, bool, i64/u64 extremes, Debug, Display, f64, u128, Empty); distinct = distinct resulting label sets",
+        rule: "all span trees (chains of nested spans) up to the stated depth where every level independently takes one of 20 variants (fields a,b given at creation or left Empty; a later record() of a or b, either right after creation or after the child span was created), x filters {IncludeAll, custom per-metric closure, Allowlists over {a,b,c}} x metric own-label sets ⊆ {a,c} x 2 metric names x 3 kinds, emitted inside every level, after every subtree, after leaving every level and outside any span, on the real MetricsLayer + TracingContextLayer over a real tracing-subscriber registry, optionally with a second thread holding a conflicting span on the same subscriber; the key reaching the inner recorder is compared with a reference precedence map (metric > inner span > outer span-at-child-creation, record() replaces); plus, at the value-formatting callback inside Span::record (the one point where other code can run during a record), every action of {emit in the span, create a child and emit in it} x {same thread, another thread} and a concurrent record of the other field: the emission sees the labels from before or after the record, never a torn set; plus field value types (str, bool, i64/u64 extremes, Debug, Display, f64, u128, Empty); distinct = distinct resulting label sets",
         assumptions: &["span trees are chains (each span has at most one child): sibling spans are independent by construction of the per-span label map"],
         parts,
         run,
